@@ -12,11 +12,11 @@ import (
 // AveragePlan deploy workload each node
 // 容量够的机器每一台部署 N 个
 // need 是每台机器所需总量，limit 是限制节点数, 保证本轮增量部署 need*limit 个实例
-// limit = 0 即对所有节点部署
+// limit <= 0 即对所有节点部署
 func AveragePlan(ctx context.Context, infos []Info, need, _, limit int) (map[string]int, error) {
 	log.WithFunc("strategy.AveragePlan").Debugf(ctx, "need %d limit %d infos %+v", need, limit, infos)
 	scheduleInfosLength := len(infos)
-	if limit == 0 {
+	if limit <= 0 {
 		limit = scheduleInfosLength
 	}
 	if scheduleInfosLength < limit {
